@@ -4,6 +4,7 @@ SPECIFICATION SSpec
 CONSTANTS
     NThreads = 1
     StoreOf <- MC_Store1
+    InstKind <- MC_Kind1
     NKeys = 3
     PropChoices <- MC_None
     Kinds <- MC_None
@@ -13,7 +14,7 @@ CONSTANTS
     MaxDepth = 3
     Panics = FALSE
     MaxSpans = 3
-    WithIncoming = FALSE
+    IncomingKinds <- MC_None
     WithLazy = TRUE
     Emit = TRUE
 VIEW sview
